@@ -467,6 +467,85 @@ pub(crate) fn get_shard<H: HashSer>(
     .transpose()
 }
 
+/// Truncates `tree` to the checkpoint with the given identifier, as
+/// [`ShardTree::truncate_to_checkpoint`] does, and then discards every cached subtree root whose
+/// subtree extends beyond the checkpoint's position.
+///
+/// `shardtree`'s truncation removes the leaves to the right of the checkpoint, but it keeps the
+/// annotation of each parent node on the path to the checkpoint position, and it leaves the cap
+/// untouched when the cap holds a cached root for the shard that contains that position. Such a
+/// cached root was computed over leaves that the truncation has just removed; if the chain
+/// continues differently after a rewind, it no longer describes the tree, and root and witness
+/// computations that trust it produce wrong results (or later insertions conflict with it). A
+/// cached root is redundant with the data it summarises whenever it is still correct, so dropping
+/// the ones that cover truncated positions is always safe.
+pub(crate) fn truncate_to_checkpoint<S, const DEPTH: u8, const SHARD_HEIGHT: u8>(
+    tree: &mut shardtree::ShardTree<S, DEPTH, SHARD_HEIGHT>,
+    checkpoint_id: &BlockHeight,
+) -> Result<bool, ShardTreeError<S::Error>>
+where
+    S: ShardStore<CheckpointId = BlockHeight>,
+    S::H: Hashable + Clone + PartialEq,
+{
+    /// Pre-condition: `addr` must be the address of `tree`.
+    fn without_roots_beyond<H: Clone>(
+        addr: Address,
+        tree: &PrunableTree<H>,
+        position: Position,
+    ) -> PrunableTree<H> {
+        if addr.max_position() <= position {
+            return tree.clone();
+        }
+        match (&**tree, addr.children()) {
+            (shardtree::Node::Parent { left, right, .. }, Some((l_addr, r_addr))) => {
+                let left = without_roots_beyond(l_addr, left, position);
+                let right = without_roots_beyond(r_addr, right, position);
+                if left.is_nil() && right.is_nil() {
+                    shardtree::Tree::empty()
+                } else {
+                    shardtree::Tree::parent(None, left, right)
+                }
+            }
+            // A leaf above level 0 stands for a subtree that has been pruned down to its root;
+            // here that subtree contains positions that are no longer part of the tree.
+            (shardtree::Node::Leaf { .. }, Some(_)) => shardtree::Tree::empty(),
+            _ => tree.clone(),
+        }
+    }
+
+    let checkpoint = tree
+        .store()
+        .get_checkpoint(checkpoint_id)
+        .map_err(ShardTreeError::Storage)?;
+    if !tree.truncate_to_checkpoint(checkpoint_id)? {
+        return Ok(false);
+    }
+
+    if let Some(position) = checkpoint.and_then(|c| c.position()) {
+        let shard_addr = Address::above_position(Level::from(SHARD_HEIGHT), position);
+        if let Some(shard) = tree
+            .store()
+            .get_shard(shard_addr)
+            .map_err(ShardTreeError::Storage)?
+        {
+            let root = without_roots_beyond(shard.root_addr(), shard.root(), position);
+            if let Ok(cleared) = LocatedPrunableTree::from_parts(shard.root_addr(), root) {
+                tree.store_mut()
+                    .put_shard(cleared)
+                    .map_err(ShardTreeError::Storage)?;
+            }
+        }
+
+        let cap = tree.store().get_cap().map_err(ShardTreeError::Storage)?;
+        let cap_addr = Address::from_parts(Level::from(DEPTH), 0);
+        tree.store_mut()
+            .put_cap(without_roots_beyond(cap_addr, &cap, position))
+            .map_err(ShardTreeError::Storage)?;
+    }
+
+    Ok(true)
+}
+
 pub(crate) fn last_shard<H: HashSer>(
     conn: &rusqlite::Connection,
     table_prefix: &'static str,
